@@ -177,8 +177,14 @@ func run(c fw.Case, tier string, rec *fw.Recorder) {
 		rec.Sample(map[string]any{"creation_fee_at_genesis": fee.String(), "users": len(users), "rich_funds": richFunds, "poor_funds": poorFunds})
 	}
 
+	contracts := contractAccts()
+	wasm, err := newWasmEntry(ch)
+	if err != nil {
+		rec.Inconclusive("cannot build the wasm custom-message router: " + err.Error())
+		return
+	}
 	m := newModel(o0)
-	g := newGen(r, users, m, vals[0].Acct)
+	g := newGen(r, users, m, vals[0].Acct, contracts)
 	stats := histStats{ok: map[string]int{}, rej: map[string]int{}}
 	var recent []any
 	var sampleOps []string
@@ -186,15 +192,49 @@ func run(c fw.Case, tier string, rec *fw.Recorder) {
 	for step := 0; step < p.Len; step++ {
 		b := g.next()
 		rec.Op(b)
-		// sign + queue
-		type queued struct {
-			tx  txSpec
-			err string
-		}
-		var qs []queued
-		seqOff := map[int]uint64{}
-		var live []int // indices into qs of txs actually in the block
+		// a block is either a set of signed transactions or a set of contract calls (wasm binding)
+		nw := 0
 		for _, tx := range b.Txs {
+			if tx.Via == viaWasm {
+				nw++
+			}
+		}
+		if nw != 0 && nw != len(b.Txs) {
+			rec.Inconclusive(fmt.Sprintf("step %d: generator mixed signed transactions and contract calls in one block", b.Step))
+			return
+		}
+		// per transaction of the block: nil = could not be built / signed (never executed)
+		type outcome struct {
+			ok        bool
+			code      uint32
+			log       string
+			newDenoms []string
+			raw       []string
+		}
+		outs := make([]*outcome, len(b.Txs))
+		if nw > 0 {
+			// contract calls: dispatched now through the binding's router (all-or-nothing per call), the
+			// following block is empty
+			for i, tx := range b.Txs {
+				if tx.Signer < 0 || tx.Signer >= len(contracts) {
+					rec.Inconclusive(fmt.Sprintf("step %d: no contract #%d", b.Step, tx.Signer))
+					return
+				}
+				cr := wasm.call(ch, contracts[tx.Signer].Addr, tx.Msgs)
+				o := &outcome{ok: cr.OK, log: cr.Err, newDenoms: cr.NewDenoms, raw: cr.Raw}
+				if !cr.OK {
+					o.code = 1
+				}
+				outs[i] = o
+			}
+		}
+		// sign + queue
+		seqOff := map[int]uint64{}
+		var live []int // indices into b.Txs of the signed txs actually in the block
+		for i, tx := range b.Txs {
+			if nw > 0 {
+				break
+			}
 			var msgs []sdk.Msg
 			berr := ""
 			for _, ms := range tx.Msgs {
@@ -217,10 +257,9 @@ func run(c fw.Case, tier string, rec *fw.Recorder) {
 					}
 				}()
 			}
-			qs = append(qs, queued{tx: tx, err: berr})
 			if berr == "" {
 				seqOff[tx.Signer]++
-				live = append(live, len(qs)-1)
+				live = append(live, i)
 			} else {
 				rec.Count("tx_unbuildable", 1)
 			}
@@ -237,6 +276,14 @@ func run(c fw.Case, tier string, rec *fw.Recorder) {
 			rec.Inconclusive(fmt.Sprintf("step %d: %d tx results for %d queued txs", b.Step, len(br.Txs), len(live)))
 			return
 		}
+		for li, i := range live {
+			res := br.Txs[li]
+			o := &outcome{ok: res.OK(), code: res.Code, log: res.Log}
+			if res.OK() {
+				o.newDenoms = newDenomsOf(res)
+			}
+			outs[i] = o
+		}
 		rec.Count("blocks", 1)
 
 		// judge + apply
@@ -246,25 +293,43 @@ func run(c fw.Case, tier string, rec *fw.Recorder) {
 		var created []string
 		anyOK := false
 		var results []map[string]any
-		for li, qi := range live {
-			tx := qs[qi].tx
-			res := br.Txs[li]
-			results = append(results, map[string]any{"signer": tx.Signer, "code": res.Code, "log": short(res.Log)})
+		for i, tx := range b.Txs {
+			o := outs[i]
+			if o == nil {
+				continue
+			}
+			if tx.Via == viaWasm {
+				c := contracts[tx.Signer]
+				results = append(results, map[string]any{"contract": tx.Signer, "code": o.code, "log": short(o.log), "custom_msgs": o.raw})
+				classifyCall(rec, g, m, c, tx, o.ok, &stats)
+				if !o.ok {
+					// a failed call must leave no trace: nothing is applied to the model
+					continue
+				}
+				anyOK = true
+				okMask[i] = true
+				fs, cr := m.applyCall(tx.Signer, c, tx, o.newDenoms)
+				findings = append(findings, fs...)
+				created = append(created, cr...)
+				rec.Eval(int64(len(tx.Msgs)))
+				continue
+			}
+			results = append(results, map[string]any{"signer": tx.Signer, "code": o.code, "log": short(o.log)})
 			rec.Count("txs", 1)
 			rec.Count("msgs", int64(len(tx.Msgs)))
 			pre := m // state before this tx (model is mutated in place below; classify first)
-			deleg[qi] = make([]bool, len(tx.Msgs))
+			deleg[i] = make([]bool, len(tx.Msgs))
 			for j, ms := range tx.Msgs {
-				_, deleg[qi][j] = pre.acting(users, tx.Signer, ms)
+				_, deleg[i][j] = pre.acting(users, tx.Signer, ms)
 			}
-			classifyTx(rec, g, pre, users, tx, res.OK(), &stats)
-			if !res.OK() {
+			classifyTx(rec, g, pre, users, tx, o.ok, &stats)
+			if !o.ok {
 				// a rejected transaction must leave no trace: nothing is applied to the model
 				continue
 			}
 			anyOK = true
-			okMask[qi] = true
-			fs, cr, dk := m.applyTx(users, tx.Signer, tx, newDenomsOf(res))
+			okMask[i] = true
+			fs, cr, dk := m.applyTx(users, tx.Signer, tx, o.newDenoms)
 			findings = append(findings, fs...)
 			created = append(created, cr...)
 			for _, k := range dk {
@@ -290,19 +355,28 @@ func run(c fw.Case, tier string, rec *fw.Recorder) {
 						continue
 					}
 					for j, ms := range tx.Msgs {
-						d := ms.Denom
+						// the denoms the message names (a binding message may name two: the denom it is
+						// authorised against and the Base of its metadata)
+						names := []string{ms.Denom}
 						if ms.K == "setmeta" && ms.Meta != nil {
-							d = ms.Meta.Base
+							names = []string{ms.Meta.Base}
 						}
-						if ms.K == "create" && createdBy[denom] && onlyOK {
-							d = denom
+						if isWasmKind(ms.K) && ms.Meta != nil {
+							names = append(names, ms.Meta.Base)
 						}
-						if !match || d == denom {
+						if baseKind(ms.K) == "create" && createdBy[denom] && onlyOK {
+							names = append(names, denom)
+						}
+						hit := !match
+						for _, d := range names {
+							hit = hit || d == denom
+						}
+						if hit {
 							label := ms.K
 							if deleg[i] != nil && deleg[i][j] {
 								label = "delegated-" + ms.K
 							}
-							set[label] = ms.K
+							set[label] = baseKind(ms.K)
 						}
 					}
 				}
@@ -385,7 +459,7 @@ func run(c fw.Case, tier string, rec *fw.Recorder) {
 				rec.Violation(f.sig, fmt.Sprintf("step %d: %s", b.Step, f.msg), map[string]any{
 					"step": b.Step, "block": b, "results": results, "all_findings": findingStrings(findings),
 					"model_tokens": state, "history_tail": recent,
-					"users": userList(users),
+					"users": userList(users), "contracts": contractList(contracts),
 				})
 			}
 			return // the model no longer mirrors the chain; stop this history
@@ -419,6 +493,14 @@ func userList(us []*chain.Account) []string {
 	return out
 }
 
+func contractList(cs []contractAcct) []string {
+	var out []string
+	for i, c := range cs {
+		out = append(out, fmt.Sprintf("%d=%s (%d bytes)", i, c.Bech, len(c.Addr)))
+	}
+	return out
+}
+
 func firstLine(s string) string {
 	if i := strings.Index(s, "\n"); i >= 0 {
 		return s[:i]
@@ -430,7 +512,11 @@ func describe(b blockSpec, results []map[string]any) string {
 	var sb strings.Builder
 	ri := 0
 	for _, tx := range b.Txs {
-		sb.WriteString(fmt.Sprintf("u%d[", tx.Signer))
+		if tx.Via == viaWasm {
+			sb.WriteString(fmt.Sprintf("contract%d[", tx.Signer))
+		} else {
+			sb.WriteString(fmt.Sprintf("u%d[", tx.Signer))
+		}
 		for i, ms := range tx.Msgs {
 			if i > 0 {
 				sb.WriteString("; ")
@@ -446,6 +532,14 @@ func describe(b blockSpec, results []map[string]any) string {
 				sb.WriteString(fmt.Sprintf("setmeta %s (%s)", tail(ms.Denom), ms.Variant))
 			case "grant", "revoke":
 				sb.WriteString(fmt.Sprintf("%s allowance -> %s (%s)", ms.K, trunc(ms.To[len(ms.To)-4:], 4), ms.Variant))
+			case "wasm-create":
+				sb.WriteString(fmt.Sprintf("create_denom %q %s", ms.Sub, ms.Variant))
+			case "wasm-mint", "wasm-burn":
+				sb.WriteString(fmt.Sprintf("%s %s(%s) %s %s", ms.K, ms.AmtClass, trunc(ms.Amt, 12), tail(ms.Denom), ms.Variant))
+			case "wasm-chadmin":
+				sb.WriteString(fmt.Sprintf("change_admin %s -> %s", tail(ms.Denom), ms.Variant))
+			case "wasm-setmeta":
+				sb.WriteString(fmt.Sprintf("set_metadata %s (%s)", tail(ms.Denom), ms.Variant))
 			}
 			if ms.CreatorClass != "" && ms.CreatorClass != "self" {
 				sb.WriteString(" as:" + ms.CreatorClass)
@@ -568,8 +662,10 @@ func classifyTx(rec *fw.Recorder, g *gen, m *model, users []*chain.Account, tx t
 		switch {
 		case t.Admin == "":
 			adminKind = "nobody"
-		case sameAccount(t.Admin, users[t.CreatorIdx].Addr):
+		case t.CreatorIdx >= 0 && sameAccount(t.Admin, users[t.CreatorIdx].Addr):
 			adminKind = "creator"
+		case g.contractIdxOf(t.Admin) >= 0:
+			adminKind = "contract"
 		case g.adminIdx(ms.Denom) < 0:
 			adminKind = "non-user"
 		}
@@ -593,6 +689,9 @@ func classifyTx(rec *fw.Recorder, g *gen, m *model, users []*chain.Account, tx t
 		}
 		if role == "admin" && ok && !delegated {
 			rec.Count(ms.K+"_by_admin_ok", 1)
+		}
+		if role == "admin" && ok && t.CreatorIdx < 0 {
+			rec.Count("user_admin_of_contract_created_token_ok", 1) // role received from a contract (wasm binding) by hand-over
 		}
 		if delegated {
 			// the granter the grantee signs for is / is not the current admin
@@ -635,10 +734,15 @@ func init() {
 			"scripted take-over / hand-over / renounce / holder-burn / create+mint+hand-over-in-one-tx sub-scenarios are injected at random positions. " +
 			"Delegated signing: users grant / revoke fee allowances (basic, spend-limited, expiring) as environment; ~45 % of the honest messages of a user that has a grantee are signed by the grantee instead (Metadata.Creator = granter, Signers = [grantee]), " +
 			"and a scripted delegation scenario sends create / mint / burn / set-metadata / change-admin through that route with the controls the ante chain must refuse (before the grant, allowance in the wrong direction only, third party, after revocation). " +
+			"Second entry point: 3 contract accounts (32-, 20-, 32-byte addresses, funded by bank sends in the first blocks) act through the wasm binding of the token factory: ~13 % of the fresh blocks are contract calls - the JSON custom messages create_denom (with / without metadata) / mint_tokens / burn_tokens / change_admin / set_metadata of one contract response (1 message, sometimes 2-3 that stand or fall together) dispatched through the custom-message router app.go installs in front of the wasm keeper, with the same hostile denoms / amounts / addresses; " +
+			"set_metadata / create_denom metadata name as Base: nothing, the message's denom, somebody else's factory token, the native denom, never-created denoms in a foreign / the own namespace, another token of the same contract, hostile spellings; mint_to_address / burn_from_address / new_admin_address from {self, users, other contract, upper-case, \"\", module / unknown / valoper / wrong-hrp / garbage}; users hand tokens over to contracts and back, send them factory tokens, and both routes operate on each other's tokens; a scripted contract scenario tries every field of the binding on a victim token before / after a hand-over. " +
 			"distinct_nontrivial = distinct abstract transitions (message kind, denom class, creator-field class, amount class, variant, outcome, signer role, admin kind, supply class); " +
 			"evaluations = messages of successful txs judged against the model + state items (balances, supplies, metadata entries, authority entries) compared after every block",
 		Assumptions: []string{
-			"histories consist of the five token-factory messages plus plain bank sends and fee-allowance grants / revocations (environment); no skyway/bridge or wasm-binding operations",
+			"histories consist of the five token-factory messages, the five custom messages of the token factory's wasm binding, plus plain bank sends and fee-allowance grants / revocations (environment); no skyway/bridge operations",
+			"a contract is represented by its address: its custom messages are handed, as the JSON a contract emits, to the custom-message router built like app/app.go:buildWasmMessageDecorator builds it (bank BaseKeeper + token-factory keeper of the running app), the messages of one response on one cache context that is written back only if all succeeded - what the wasm keeper does after executing contract code; no wasm byte code is executed. The acting party of such a message is the contract address",
+			"mint_tokens{mint_to_address} of the binding is a mint into the contract's (admin's) own balance followed by a plain transfer of the new coins by their owner; it is judged as such (supply + amount, recipient + amount)",
+			"the bank metadata entry a set_metadata / create_denom{metadata} of the binding changes is the entry of the Base the metadata names (of the message's denom when Base is omitted): the contract must be the current admin of THAT denom, which must be a factory token",
 			"'the admin' is an account: an admin string designates the account whose address bytes it decodes to (either bech32 case); \"\" designates nobody",
 			"the acting party of a message is the account whose key signed the transaction - unless Metadata.Creator designates another account that has granted the signer a fee allowance (Paloma's delegated signing, admitted by VerifyAuthorisedSignatureDecorator): then it is that creator, and 'the admin' / 'the admin's own balance' / 'its own namespace' are decided for the creator. A foreign creator field without such an allowance gives the signer no rights",
 			"the set of fee allowances is environment: successful grant / revoke messages are applied by the model, expiry is adopted from the observed fee-grant store after every block",
@@ -655,6 +759,13 @@ func init() {
 			"grant_ok", "revoke_ok", "delegated_create_ok", "delegated_mint_ok", "delegated_burn_ok", "delegated_chadmin_ok", "delegated_setmeta_ok",
 			"delegated_rejected_for_nonadmin", "foreign_creator_rejected_no_allowance", "foreign_creator_rejected_reverse_allowance_only",
 			"multimsg_tx_ok", "multimsg_tx_rejected", "state_comparisons", "histories_nontrivial",
+			// the wasm-binding entry point (contracts as acting parties)
+			"wasm_calls", "wasm_create_ok", "wasm_create_rejected_existing", "wasm_create_with_metadata_ok",
+			"wasm_mint_by_admin_ok", "wasm_burn_by_admin_ok", "wasm_chadmin_by_admin_ok", "wasm_setmeta_by_admin_ok",
+			"wasm_mint_rejected_nonadmin", "wasm_burn_rejected_nonadmin", "wasm_chadmin_rejected_nonadmin", "wasm_setmeta_rejected_nonadmin",
+			"wasm_mint_rejected_nonfactory", "wasm_burn_rejected_nonfactory", "wasm_chadmin_rejected_nonfactory", "wasm_setmeta_rejected_nonfactory",
+			"wasm_setmeta_rejected_foreign_base", "wasm_multimsg_call_ok",
+			"wasm_admin_of_foreign_created_token_ok", "user_admin_of_contract_created_token_ok",
 		},
 		TimeoutS: 600,
 	})
